@@ -1,0 +1,64 @@
+//go:build verif
+
+// Hooks for the verification harness in /verif (C28). Add-only: nothing in this
+// file is compiled without the `verif` build tag and nothing here changes the
+// behaviour of the package; it only exports read access to unexported state.
+
+package monitor
+
+import (
+	"sort"
+	"sync/atomic"
+)
+
+// VerifHandle is one entry of Subscription.handles.
+type VerifHandle struct {
+	Handle uint32
+	NodeID string
+}
+
+// VerifItem is one entry of Subscription.itemLookup.
+type VerifItem struct {
+	ID     uint32
+	Handle uint32
+	NodeID string
+}
+
+// VerifHandles returns the handle map sorted by handle.
+func (s *Subscription) VerifHandles() []VerifHandle {
+	s.mu.RLock()
+	defer s.mu.RUnlock()
+	out := make([]VerifHandle, 0, len(s.handles))
+	for h, n := range s.handles {
+		out = append(out, VerifHandle{h, n.String()})
+	}
+	sort.Slice(out, func(i, j int) bool { return out[i].Handle < out[j].Handle })
+	return out
+}
+
+// VerifItems returns itemLookup sorted by item id.
+func (s *Subscription) VerifItems() []VerifItem {
+	s.mu.RLock()
+	defer s.mu.RUnlock()
+	out := make([]VerifItem, 0, len(s.itemLookup))
+	for _, it := range s.itemLookup {
+		out = append(out, VerifItem{it.id, it.handle, it.nodeID.String()})
+	}
+	sort.Slice(out, func(i, j int) bool { return out[i].ID < out[j].ID })
+	return out
+}
+
+// VerifItemByID returns the Item handle object for an item id (to pass to
+// RemoveMonitorItems); ok is false when it is not in itemLookup.
+func (s *Subscription) VerifItemByID(id uint32) (Item, bool) {
+	s.mu.RLock()
+	defer s.mu.RUnlock()
+	it, ok := s.itemLookup[id]
+	return it, ok
+}
+
+// VerifMakeItem builds an Item value that is not (or no longer) in itemLookup.
+func VerifMakeItem(id, handle uint32) Item { return Item{id: id, handle: handle} }
+
+// VerifNextHandle returns NodeMonitor.nextClientHandle.
+func (m *NodeMonitor) VerifNextHandle() uint32 { return atomic.LoadUint32(&m.nextClientHandle) }
